@@ -87,6 +87,8 @@ type Obligation struct {
 	IsCover bool
 }
 
+var explainMode bool
+
 // Ctx is the verification context of one top-level function.
 type Ctx struct {
 	eng       *Engine
@@ -439,6 +441,7 @@ func (cx *Ctx) havocEnum(st *State, loc *Term, t types.Type) {
 		v := b.Const("hv", s)
 		cx.store(st, loc, t, v)
 		cx.assume(cx.typeInv(v, t))
+		cx.assume(cx.notFuture(v))
 		return
 	}
 	switch u := t.Underlying().(type) {
@@ -455,6 +458,27 @@ func (cx *Ctx) havocEnum(st *State, loc *Term, t types.Type) {
 			cx.havocEnum(st, b.Elem(loc, b.BV(uint64(i), 64)), u.Elem())
 		}
 	}
+}
+
+// notFuture: a value obtained now cannot point into objects allocated later
+// (allocation ids are handed out in increasing order).
+func (cx *Ctx) notFuture(v *Term) *Term {
+	b, w := cx.w.b, cx.w
+	var l *Term
+	switch v.sort {
+	case SLoc:
+		l = v
+	case SSlice:
+		l = w.sbase(v)
+	case SIface:
+		l = w.iptr(v)
+	default:
+		return b.True()
+	}
+	if c := locCtor(def(l)); c != "" && c != "Fld" && c != "Elem" {
+		return b.True()
+	}
+	return b.mk("<=", SBool, b.mk("newId6", SInt, l), b.Int(int64(cx.newN)))
 }
 
 // typeInv returns the invariant every value of Go type t satisfies.
@@ -587,7 +611,7 @@ func (cx *Ctx) isFreshLoc(v Val) *Term {
 // rootIsNew: bounded-depth check that a location lies inside an object allocated
 // during the function (conservative: deeper paths count as not-new).
 func (cx *Ctx) rootIsNew(l *Term) *Term {
-	return cx.w.b.mk("rootIsNew3", SBool, l)
+	return cx.w.b.mk("rootIsNew6", SBool, l)
 }
 
 // ---------- obligations ----------
@@ -608,6 +632,47 @@ func (cx *Ctx) newObligation(kind, label, clause, pos string, reach, goal *Term,
 	return o
 }
 
+func hasQuantifier(t *Term, seen map[int]bool) bool {
+	if seen[t.id] {
+		return false
+	}
+	seen[t.id] = true
+	if strings.HasPrefix(t.op, "forall ") || strings.HasPrefix(t.op, "exists ") || strings.HasPrefix(t.op, "\x00") {
+		return true
+	}
+	for _, a := range t.args {
+		if hasQuantifier(a, seen) {
+			return true
+		}
+	}
+	return false
+}
+
+// conjuncts lists the leaf conjuncts of the goal (through =>, and, named terms).
+func (o *Obligation) conjuncts() []*Term {
+	var out []*Term
+	var rec func(t *Term, depth int)
+	rec = func(t *Term, depth int) {
+		d := def(t)
+		switch {
+		case d.op == "and" && depth < 6:
+			for _, a := range d.args {
+				rec(a, depth+1)
+			}
+		case d.op == "=>" && len(d.args) == 2 && depth < 6:
+			out = append(out, d.args[0])
+			rec(d.args[1], depth+1)
+		default:
+			out = append(out, t)
+		}
+	}
+	rec(o.goal, 0)
+	if len(out) > 40 {
+		out = out[:40]
+	}
+	return out
+}
+
 // Query renders the SMT-LIB text of an obligation (negated goal).
 func (o *Obligation) Query(getModel bool) string { return o.QueryCase(getModel, nil) }
 
@@ -623,6 +688,9 @@ func (o *Obligation) QueryCase(getModel bool, hyp *Term) string {
 		if a.mark > di {
 			w.b.Definitions(di, a.mark, &body)
 			di = a.mark
+		}
+		if o.IsCover && hasQuantifier(a.t, map[int]bool{}) {
+			continue // covers check the quantifier-free part of the hypotheses
 		}
 		body.WriteString("(assert ")
 		a.t.write(&body)
@@ -660,6 +728,13 @@ func (o *Obligation) QueryCase(getModel bool, hyp *Term) string {
 		if len(ws) > 0 && !o.IsCover {
 			body.WriteString("(get-value (" + strings.Join(ws, " ") + "))\n")
 		}
+		if explainMode && !o.IsCover {
+			var cs []string
+			for _, c := range o.conjuncts() {
+				cs = append(cs, c.String())
+			}
+			body.WriteString("(echo \"EXPLAIN\")\n(get-value (" + strings.Join(cs, "\n ") + "))\n(echo \"END-EXPLAIN\")\n")
+		}
 		body.WriteString("(get-model)\n")
 	}
 	var sb strings.Builder
@@ -676,15 +751,15 @@ func (cx *Ctx) axioms(mark int) string {
 	// values stored in the initial heap do not point into objects allocated later
 	if h0, ok := cx.h0["H_Loc"]; ok && cx.h0pos["H_Loc"] < mark {
 		nm := quoteSym(h0.name)
-		fmt.Fprintf(&sb, "(assert (forall ((l Loc)) (! (not (rootIsNew3 (select %s l))) :pattern ((select %s l)))))\n", nm, nm)
+		fmt.Fprintf(&sb, "(assert (forall ((l Loc)) (! (not (rootIsNew6 (select %s l))) :pattern ((select %s l)))))\n", nm, nm)
 	}
 	if h0, ok := cx.h0["H_Slice"]; ok && cx.h0pos["H_Slice"] < mark {
 		nm := quoteSym(h0.name)
-		fmt.Fprintf(&sb, "(assert (forall ((l Loc)) (! (not (rootIsNew3 (sbase (select %s l)))) :pattern ((select %s l)))))\n", nm, nm)
+		fmt.Fprintf(&sb, "(assert (forall ((l Loc)) (! (not (rootIsNew6 (sbase (select %s l)))) :pattern ((select %s l)))))\n", nm, nm)
 	}
 	if h0, ok := cx.h0["H_Iface"]; ok && cx.h0pos["H_Iface"] < mark {
 		nm := quoteSym(h0.name)
-		fmt.Fprintf(&sb, "(assert (forall ((l Loc)) (! (not (rootIsNew3 (iptr (select %s l)))) :pattern ((select %s l)))))\n", nm, nm)
+		fmt.Fprintf(&sb, "(assert (forall ((l Loc)) (! (not (rootIsNew6 (iptr (select %s l)))) :pattern ((select %s l)))))\n", nm, nm)
 	}
 	for _, hn := range sortedKeys(cx.h0) {
 		if !strings.HasPrefix(hn, "M_") || cx.h0pos[hn] >= mark {
@@ -696,7 +771,7 @@ func (cx *Ctx) axioms(mark int) string {
 			continue
 		}
 		nm := quoteSym(h0.name)
-		fmt.Fprintf(&sb, "(assert (forall ((l Loc) (k %s)) (! (not (rootIsNew3 (select (select %s l) k))) :pattern ((select (select %s l) k)))))\n", arrayKeySort(inner), nm, nm)
+		fmt.Fprintf(&sb, "(assert (forall ((l Loc) (k %s)) (! (not (rootIsNew6 (select (select %s l) k))) :pattern ((select (select %s l) k)))))\n", arrayKeySort(inner), nm, nm)
 	}
 	for _, hn := range sortedKeys(cx.axiomsFor) {
 		h0, ok := cx.h0[hn]
